@@ -3,7 +3,7 @@
 # whether it is still reported; /repo is restored after each. Evidence files written meanwhile describe seeded trees: re-run the
 # checks on the unchanged tree afterwards.
 cd /verif
-for d in seeded/*/; do
+for d in ${RESEED_LIST:-/verif/seeded/*/}; do
   id=$(basename $d)
   prop=$(python3 -c "import json;print(json.load(open('$d/meta.json'))['property'])")
   checks=$prop
